@@ -42,10 +42,17 @@ EXTREME = [(3600, 2.0 ** -30, 2.0 ** -30), (1800, 2.0 ** 30, 2.0 ** 31)]
 # a threshold of exactly zero (any rain is a storm / any increase a rise):
 # not "positive", so used only where the property does not ask for that
 ZERO = [(3600, 0.0, 0.0), (1800, 0.0, 5.0), (1200, 3.0, 0.0)]
+# whole-number intensities whose depth per step is not a whole number
+ODD = [(1200, 5.0, 3.0)]
+# threshold x step is NOT exact in binary; increments are the decimal
+# products.  Only for oracles that do not compare increments with the
+# threshold (C01: totality, one-to-one, overlap)
+INEXACT = [(10800, 0.4, 0.3, 'decimal-unit'), (60, 0.7, 0.1, 'decimal-unit'),
+           (7200, 1.1, 0.7, 'decimal-unit')]
 
 
 def selftest():
-    for dt, s, j in COMBOS + EXTREME:
+    for dt, s, j in COMBOS + EXTREME + ODD:
         exact = Fraction(j) * Fraction(dt, 3600)
         if Fraction(float(j) * (dt / 3600.)) != exact:
             raise InternalError('threshold product inexact for %r' % (
@@ -76,22 +83,35 @@ def exc_site(exc):
 
 # ------------------------------------------------------------ kind 'fn'
 
-def fn_space(length):
-    """All (rain bits, increment bits) records with `length` steps"""
+def fn_space(length, stretch=1):
+    """All (rain bits, increment bits) records with `length` steps; with
+    stretch > 1 every step is repeated `stretch` times (durations and start
+    offsets of hundreds of steps with the same overlap structure)"""
     n_r = 2 ** length
     n_i = 2 ** (length - 1)
 
     def decode(i):
-        return {'kind': 'fn', 'L': length, 'rain': i // n_i, 'inc': i % n_i}
-    return Space('match_storms/L=%d/all-schedules' % length, n_r * n_i,
-                 decode, 'rain in {=s, >s}, increments in {=jump, >jump}',
-                 decoy_every=4096)
+        case = {'kind': 'fn', 'L': length, 'rain': i // n_i, 'inc': i % n_i}
+        if stretch > 1:
+            case['stretch'] = stretch
+        return case
+    return Space('match_storms/L=%d%s/all-schedules' % (
+        length, ' stretched x%d' % stretch if stretch > 1 else ''),
+        n_r * n_i, decode,
+        'rain in {=s, >s}, increments in {=jump, >jump}',
+        decoy_every=4096)
 
 
 def fn_inputs(case):
     L = case['L']
     rain_bits = [(case['rain'] >> k) & 1 for k in range(L)]
     inc_bits = [(case['inc'] >> k) & 1 for k in range(L - 1)]
+    k_ = int(case.get('stretch') or 1)
+    if k_ > 1:
+        rain_bits = [b for b in rain_bits for _ in range(k_)]
+        # the last step has no increment of its own
+        inc_bits = [b for b in inc_bits for _ in range(k_)] \
+            + [0] * (k_ - 1)
     rain = np.array([5.0 + 5.0 * b for b in rain_bits])      # thr 5
     head = np.concatenate(([0.0], np.cumsum(
         np.array([1.0 + 1.0 * b for b in inc_bits]))))       # thr 1
@@ -228,7 +248,7 @@ def digits(value, base, count):
 
 def db_inputs(case):
     n = case['n']
-    dt, s, j = case['combo']
+    dt, s, j = case['combo'][:3]
     base = case['base']
     rd = digits(case['rain'], base, n)
     idg = digits(case['inc'], base, n - 1)
@@ -236,6 +256,8 @@ def db_inputs(case):
         rd = [d + 1 for d in rd]
         idg = [d + 1 for d in idg]
     unit = float(j) * (dt / 3600.)
+    if len(case['combo']) > 3:
+        unit = float(repr(round(j * dt / 3600., 9)))
     # zero thresholds: {exactly at the threshold, light, heavy}; the light
     # value lies below the defaults a missing argument would fall back to
     rain_values = (0.0, s, 2 * s) if s > 0 else (0.0, 2.5, 6.0)
@@ -411,6 +433,61 @@ def run_cli(case, want):
         os.unlink(db)
 
 
+SEQ_STEPS = ['classify-A', 'classify-B', 'grid-1', 'recession', 'rise']
+
+
+def sequence_space(depth):
+    """Every sequence of up to `depth` workflow steps with TWO different
+    classify commands: whatever thresholds the dataset records, the recorded
+    classification must be the one for those thresholds"""
+    n = len(SEQ_STEPS)
+    sizes = [n ** k for k in range(1, depth + 1)]
+
+    def decode(i):
+        k = 1
+        for size in sizes:
+            if i < size:
+                break
+            i -= size
+            k += 1
+        seq = []
+        for _ in range(k):
+            seq.append(SEQ_STEPS[i % n])
+            i //= n
+        return {'kind': 'sequence', 'steps': seq[::-1]}
+    return Space('step sequences up to length %d over %r' % (depth,
+                                                             SEQ_STEPS),
+                 sum(sizes), decode)
+
+
+def run_sequence(case, want):
+    from mc.checks import c13
+    blob = c13.state_after(case['steps'])
+    connection = sqlite3.connect(':memory:')
+    connection.deserialize(blob)
+    viol = {p: [] for p in want}
+    try:
+        row = connection.execute(
+            'SELECT storm_rain_threshold_mm_h, rising_jump_threshold_mm_h '
+            'FROM thresholds').fetchall()
+        if len(row) != 1:
+            return viol, {'nontrivial': False, 'outcome': 'unclassified'}
+        dt, stretches = records.read_loaded(connection)
+        ref = records.RefClassification(dt, stretches, row[0][0], row[0][1])
+        got = records.read_classification(connection)
+        v = records.check_classification(ref, got, want)
+    finally:
+        connection.close()
+    for p in want:
+        viol[p] = [(sig, 'after the steps %r: %s' % (case['steps'], msg))
+                   for sig, msg in v[p]]
+    return viol, {'nontrivial': True,
+                  'outcome': repr((row, sorted(got['pairs']))),
+                  'states': len(case['steps']) + 1,
+                  'transitions': len(case['steps']),
+                  'counters': {'sequences_ending_classified': 1}}
+
+
 def run_case_for(case, want):
     kind = case['kind']
     if kind == 'fn':
@@ -419,6 +496,8 @@ def run_case_for(case, want):
         viol, info = run_db(case, want)
     elif kind == 'cli':
         viol, info = run_cli(case, want)
+    elif kind == 'sequence':
+        viol, info = run_sequence(case, want)
     else:
         raise InternalError('unknown case kind %r' % kind)
     return viol, info
